@@ -1,6 +1,10 @@
 package domainmatcher
 
-import "github.com/IrineSistiana/mosproxy/internal/dnsmsg"
+import (
+	"bytes"
+
+	"github.com/IrineSistiana/mosproxy/internal/dnsmsg"
+)
 
 type DomainMatcher struct {
 	root        labelNode
@@ -85,9 +89,14 @@ type labelNode struct {
 	l map[string]*labelNode
 }
 
+// useShortKey reports whether label can be stored in the zero padded [24]byte key.
+// A label containing a zero octet cannot: padding would make it equal to a shorter label.
+func useShortKey(label []byte) bool {
+	return len(label) <= 24 && bytes.IndexByte(label, 0) < 0
+}
+
 func (n *labelNode) AddLeaf(label []byte) {
-	l := len(label)
-	if l <= 24 {
+	if useShortKey(label) {
 		if n.s == nil {
 			n.s = make(map[[24]byte]*labelNode)
 		}
@@ -103,8 +112,7 @@ func (n *labelNode) AddLeaf(label []byte) {
 }
 
 func (n *labelNode) GetOrAddChild(label []byte) *labelNode {
-	l := len(label)
-	if l <= 24 {
+	if useShortKey(label) {
 		var key [24]byte
 		copy(key[:], label)
 		if child := n.s[key]; child != nil {
@@ -130,8 +138,7 @@ func (n *labelNode) GetOrAddChild(label []byte) *labelNode {
 }
 
 func (n *labelNode) GetChild(label []byte) (child *labelNode, ok bool) {
-	l := len(label)
-	if l <= 24 {
+	if useShortKey(label) {
 		var key [24]byte
 		copy(key[:], label)
 		child, ok = n.s[key]
